@@ -234,6 +234,39 @@ def main(argv):
             fail("scopes#non_intrinsic_typed_declarations_shadow_too", dict(source=src), dict(parsed_as_intrinsic=wrong))
     except BaseException as e:  # noqa
         fail("scopes#non_intrinsic_typed_declarations_shadow_too", dict(source=src), "%s: %s" % (type(e).__name__, str(e)[:120]))
+    # sibling scopes that carry the same name are still two scopes: one table each, declarations of one not visible in the other
+    def tree_of(tb):
+        nm = tb.name
+        return (nm, sorted(tb._data_symbols), [tree_of(c) for c in tb.children])
+    siblings = [
+        ("interface_body_and_definition",
+         "module shapes\n interface\n  module function total(v, size)\n   integer :: size\n   real :: v(size), total\n  end function total\n end interface\ncontains\n"
+         " module function total(v, n)\n  integer :: n\n  real :: v(n), total\n  total = sum(v) / size(v)\n end function total\nend module shapes\n",
+         "shapes", ("shapes", [], [("total", ["size", "total", "v"], []), ("total", ["n", "total", "v"], [])]), {"sum": True, "size": True}),
+        ("two_blocks_with_one_construct_name",
+         "subroutine run(a, b)\n real :: a(10), b\n work: block\n  real :: max\n  max = a(1)\n  b = max\n end block work\n work: block\n  b = max(b, a(2))\n end block work\nend subroutine run\n",
+         "run", ("run", ["a", "b"], [("work", ["max"], []), ("work", [], [])]), {"max": True}),
+        ("two_interface_bodies_with_one_name",
+         "module m2\n interface g1\n  subroutine put(x)\n   real :: x, abs\n  end subroutine put\n end interface\n interface g2\n  subroutine put(k)\n   integer :: k\n  end subroutine put\n end interface\n"
+         "contains\n subroutine q(y)\n  real :: y\n  y = abs(y)\n end subroutine q\nend module m2\n",
+         "m2", ("m2", [], [("put", ["abs", "x"], []), ("put", ["k"], []), ("q", ["y"], [])]), {"abs": True}),
+    ]
+    for sname, src, top, want, refs in siblings:
+        cases += 1
+        try:
+            tree = ParserFactory().create(std="f2008")(FortranStringReader(src))
+            got = tree_of(SYMBOL_TABLES.lookup(top))
+            if got != want:
+                fail("scopes#same_named_siblings_have_a_table_each", dict(case=sname, source=src), dict(expected=want, found=got))
+            found = {}
+            for node in walk(tree, (F.Intrinsic_Function_Reference, F.Part_Ref)):
+                nm = str(node).lower().split("(")[0].strip()
+                if nm in refs:
+                    found[nm] = isinstance(node, F.Intrinsic_Function_Reference)
+            if found != refs:
+                fail("scopes#sibling_declarations_do_not_shadow", dict(case=sname, source=src), dict(expected=refs, found=found))
+        except BaseException as e:  # noqa
+            fail("scopes#same_named_siblings_have_a_table_each", dict(case=sname, source=src), "%s: %s" % (type(e).__name__, str(e)[:120]))
     print(json.dumps(dict(name="bounded_scopes", cases=cases, distinct=cases, exhaustive=False, bounded=True, failures=failures, samples=samples,
                           rule="fixed scope tree of 8 scopes x %d declaration configurations: every scope alone, every related pair of scopes "
                                "(all pairs in the thorough tier)" % len(CONFIGS),
